@@ -13,7 +13,8 @@ bounds the length of the longest chain of nested calls and loop iterations — t
 
 The code modelled is the tree *after* the repairs of this round (relocation into the own subtree
 refused; Connection buffer bounded by its package; `attachSiblingsAsArgs` detaches from the real
-parent; MultiNamePath length in 32 bits).
+parent; MultiNamePath length in 32 bits; prefix+NullName keeps its prefix; a strict TermArg is
+attached to its parent while its own arguments are parsed).
 
 Go run-time rule reproduced (`runtime.convTslice`): a `[]byte` whose data pointer is nil becomes
 the empty slice when stored in `Object.value` (`sliceVal`).
@@ -455,7 +456,9 @@ def parseStrictTermArg (d : Bytes) : Nat → Nat → P (Option Nat × PRes)
     let _ ← lex (nextOpcode d)
     let termObj ← newObject nextOp
     updObj termObj fun o => { o with amlOffset := curOffset }
+    tree (·.append curObj termObj)
     let res ← parseObjectArgs d f termObj
+    tree (·.detach curObj termObj)
     if (← lex eof) then popPkgEnd d
     return (some termObj, res)
 
